@@ -54,6 +54,8 @@ class C03(Prop):
             cfg["edif_props"] = r.random() < 0.6
             cfg["array_rate"] = r.choice([0.0, 0.3])
             cfg["orphan_instance"] = False
+            if cfg["lsb"] < 0 and r.random() < 0.85:
+                cfg["lsb"] = 2  # negative base indices are an open finding: explore them in few runs only
         else:
             cfg["source"] = "example"
             cfg["example"] = r.choice(corpus.names("edf", 12000 if tier == "quick" else 70000))
@@ -87,20 +89,48 @@ class C03(Prop):
         self.form_a = None
         self.form_b = None
         self.cfg = cfg
+        self.skip_rest = False
+        self.composed = False
+        self.amp_bus = False
+        self.negative_index = False
 
     def after(self, w, ev, outcome, pre):
         op = ev["op"]
         tag = ev.get("tag")
+        if not self.composed and op not in ("compose", "parse") and outcome != "ok":
+            # an event of the build phase was refused (e.g. two generated identifiers collide): the netlist is
+            # not the one the generator promised, so nothing is claimed about it
+            self.skip_rest = True
+            w.count("probe.build_incomplete")
+        if op == "compose":
+            self.composed = True
+            if self.skip_rest:
+                return
         if op == "compose":
             n = w.h(ev["on"])
             if n is None:
                 return
             if outcome != "ok":
-                if tag == "first" and self.cfg["source"] == "hier":
-                    # the generator promises an EDIF-expressible netlist: the writer must accept it
-                    raise Violation("C03.writer_rejected", outcome.split(":", 1)[-1], "compose raised %s" % outcome)
-                raise Violation("C03.writer_rejected", tag + ":" + outcome.split(":", 1)[-1], "compose raised %s" % outcome)
+                # the generator promises an EDIF-expressible netlist: the writer must accept it
+                msg = str(getattr(w, "last_error", ""))
+                raise Violation("C03.writer_rejected", "%s:%s:%s" % (tag, outcome.split(":", 1)[-1], msg[:40]),
+                                "compose raised %s (%s)" % (outcome, msg))
             form = named(n)
+            if tag in ("first", "second"):
+                bad = [c for lib in n.libraries for d in lib.definitions for c in d.cables
+                       if (c.is_array or len(c.wires) > 1) and str(c.get("EDIF.identifier", "")).startswith("&_")]
+                if bad:
+                    # open finding (also listed for C17): such a bus is not put together again by the reader
+                    sig = "C03.bus_not_reassembled@amp_underscore_identifier"
+                    if sig in self.known:
+                        w.count("known." + sig)
+                        self.skip_rest = True
+                    else:
+                        self.amp_bus = True
+            if tag in ("first", "second") and any(
+                    (c.is_array or len(c.wires) > 1) and c.lower_index < 0
+                    for lib in n.libraries for d in lib.definitions for c in d.cables):
+                self.negative_index = True
             if tag == "first":
                 self.form_a = form
                 if any(len(w_.pins) >= 2 for lib in n.libraries for d in lib.definitions for c in d.cables
@@ -108,6 +138,16 @@ class C03(Prop):
                     w.count("probe.net_with_two_endpoints")
             self.check_sexpr(w, n, w.fs.files[norm(ev["path"])], tag)
         elif op == "parse" and tag in ("reread", "reread2", "source"):
+            if self.skip_rest and tag != "source":
+                return
+            if outcome != "ok" and tag != "source" and self.negative_index:
+                sig = "C03.reader_rejected@negative_base_index"
+                if sig in self.known:
+                    w.count("known." + sig)
+                    self.skip_rest = True
+                    return
+                raise Violation("C03.reader_rejected", "negative_base_index",
+                                "a bus with a negative base index is written as net identifiers containing '-': %s" % outcome)
             if outcome != "ok":
                 raise Violation("C03.reader_rejected", "%s:%s" % (tag, outcome.split(":", 1)[-1]),
                                 "the reader raised %s on a file written by the EDIF writer" % outcome
@@ -119,8 +159,12 @@ class C03(Prop):
             check_links(objs, tag, w.name_of, P="C03.wellformed")
             check_mirror(objs, tag, w.name_of, P="C03.wellformed")
             form = named(n)
+            if self.skip_rest:
+                return
             if tag == "reread":
                 d = dict_diff(self.form_a, form)
+                if d and self.amp_bus and "/cables" in d:
+                    raise Violation("C03.bus_not_reassembled", "amp_underscore_identifier", d)
                 if d:
                     raise Violation("C03.diff." + classify(d), "roundtrip", d)
                 self.form_b = form
